@@ -138,7 +138,29 @@ func reservedAlphabet() []opDesc {
 	return ops
 }
 
+// deepAlphabet: sub-channels of a watched channel at the deepest levels the parser lets through (the ssid a
+// notification is published under is two words longer than the channel's).
+func deepChan(levels int) string {
+	ch := "a/"
+	for i := 1; i < levels; i++ {
+		ch += fmt.Sprintf("l%d/", i)
+	}
+	return ch
+}
+
+var deepChans = []string{deepChan(64), deepChan(63), deepChan(62)}
+
+func deepAlphabet() []opDesc {
+	var ops []opDesc
+	for _, ch := range deepChans {
+		ops = append(ops, opDesc{"sub", 1, ch}, opDesc{"unsub", 1, ch})
+	}
+	ops = append(ops, opDesc{"sub", 2, deepChans[0]}, opDesc{Kind: "disconnect", C: 1})
+	return ops
+}
+
 var variants = map[string]variantDef{
+	"deep":           {pre: []opDesc{{"watch", 0, "a/"}}, ops: deepAlphabet, probes: append([]string{"a/"}, deepChans...)},
 	"collisions":     {pre: []opDesc{{"watch", 0, "a/"}}, ops: collisionAlphabet, probes: append([]string{"a/"}, collChans...)},
 	"reserved-names": {pre: []opDesc{{"watch", 0, "presence/"}, {"watch", 0, "query/"}}, ops: reservedAlphabet, probes: []string{"presence/", "presence/lobby/", "query/", "query/x/"}},
 }
@@ -419,6 +441,7 @@ func run(c *core.Ctx) {
 	search(c, "", alphabet(), depth)
 	search(c, "collisions", collisionAlphabet(), depth)
 	search(c, "reserved-names", reservedAlphabet(), depth)
+	search(c, "deep", deepAlphabet(), depth)
 	c.Assume("single broker (cluster presence survey not configured); notifications are awaited through a FIFO barrier on the real presence queue")
 }
 
